@@ -1,4 +1,4 @@
-"""C07 -- import tidying never changes what a name means (R07.1-R07.16)."""
+"""C07 -- import tidying never changes what a name means (R07.1-R07.17)."""
 from __future__ import annotations
 
 import ast
@@ -23,6 +23,7 @@ EXPLANATION = (
     "are not decided."
     ' R07.15: the self-import rewrite is refused as soon as ANY character between the name and the next dot is foreign.'
 )
+EXPLANATION += " R07.17: an import statement is managed as whole lines only if every path to its registration consulted a comparison with the neighbouring statements' lines."
 ASSUMPTIONS = ["scope-opening constructors without a handler in the finder (async def, lambda, comprehensions) only make more names count as used: conservative, not armed"]
 
 FINDER = "rope.refactor.importutils.module_imports._UnboundNameFinder"
@@ -48,6 +49,7 @@ def check(ctx, res) -> None:
     prefix_boundary_rule(ctx, res, "R07.8", ["rope.refactor.importutils.actions.AddingVisitor.visitNormalImport"])
     _qualifier_gap_rule(ctx, res)
     _use_regardless_of_ctx_rule(ctx, res)
+    _whole_line_ownership_rule(ctx, res)
 
 
 def _use_regardless_of_ctx_rule(ctx, res) -> None:
@@ -536,3 +538,71 @@ def _import_rewriter_lines_rule(ctx, res, rule: str = "R07.13") -> None:
             uses = [c for c in calls_in(f.node) if isinstance(c.func, ast.Attribute) and c.func.attr == "splitlines"]
             res.add(rule, f"{f.name}|helper", not uses, f.where, "the line-cutting helper splits at '\\n'" if not uses else
                     f"{f.name} itself uses str.splitlines()", function=f.qualname)
+
+
+def _whole_line_ownership_rule(ctx, res) -> None:
+    """R07.17: an import statement is recorded with the LINES of its logical line (start line, end line, their text) and is
+    later rewritten, moved or dropped as those lines.  That is sound only for an import that is alone on its line:
+    in `import os; main()` the call is part of the recorded text and goes where the import goes -- away, if the import is
+    unused.  In the finder of module-level import statements every registration (`visit_import` / `visit_from`, or the
+    construction of an ImportStatement) is reached only under a test that compares the node's lines with those of ANOTHER
+    statement of the same body (an index into the statement list other than the node itself)."""
+    from ..cfg import CFG
+    from . import common
+    idx = ctx.idx
+    f = idx.need_func("rope.refactor.importutils.module_imports._GlobalImportFinder.find_import_statements")
+    node = common.inlined(idx, f)
+    cfg = CFG(node)
+    # the statement list: the iterable of the loop (possibly under enumerate)
+    bodies = set()
+    for x in walk_local(node):
+        if isinstance(x, ast.Assign) and len(x.targets) == 1 and isinstance(x.targets[0], ast.Name) and isinstance(x.value, ast.Attribute) and x.value.attr == "body":
+            bodies.add(x.targets[0].id)
+    cls = f.cls
+
+    def compares_with_neighbour(t) -> bool:
+        """does the test look at a line number and at another element of the statement list -- itself, or in a method of the
+        class that is handed the list?"""
+        has_line = any(isinstance(y, ast.Attribute) and y.attr in ("lineno", "end_lineno") for y in ast.walk(t))
+        other = any(isinstance(y, ast.Subscript) and ((isinstance(y.value, ast.Name) and y.value.id in bodies) or (isinstance(y.value, ast.Attribute) and y.value.attr == "body"))
+                    and not isinstance(y.slice, ast.Slice) for y in ast.walk(t))
+        if has_line and other:
+            return True
+        for c in ast.walk(t):
+            if isinstance(c, ast.Call) and is_self_attr(c.func) and cls is not None:
+                m = idx.find_method(cls.qualname, c.func.attr)
+                if m is None:
+                    continue
+                ps = m.call_params()
+                lists = {ps[i] for i, a in enumerate(c.args) if i < len(ps) and isinstance(a, ast.Name) and a.id in bodies}
+                if lists and any(isinstance(y, ast.Attribute) and y.attr in ("lineno", "end_lineno") for y in ast.walk(m.node)) \
+                        and any(isinstance(y, ast.Subscript) and isinstance(y.value, ast.Name) and y.value.id in lists and not isinstance(y.slice, ast.Slice)
+                                and not isinstance(y.slice, ast.Constant) for y in ast.walk(m.node)):
+                    return True
+        return False
+
+    # the registrations happen for import nodes only: an edge "this is not an import" out of a type test that names both
+    # kinds cannot lie on a path to one (the later `isinstance(node, ast.Import)` tests are correlated with it)
+    infeasible = []
+    for t in cfg.nodes:
+        if t.kind == "test" and isinstance(t.ast, ast.Call) and call_name(t.ast) == "isinstance" and len(t.ast.args) == 2 and isinstance(t.ast.args[1], ast.Tuple) \
+                and {"Import", "ImportFrom"} <= {(dotted(e) or "").split(".")[-1] for e in t.ast.args[1].elts}:
+            infeasible += [(t.id, b_, lab) for b_, lab in cfg.succ[t.id] if lab == "false"]
+    n = 0
+    for nd in cfg.nodes:
+        if nd.kind != "stmt" or nd.ast is None:
+            continue
+        regs = [c for c in calls_in(nd.ast) if call_name(c) in ("visit_import", "visit_from", "ImportStatement")]
+        if not regs:
+            continue
+        n += 1
+        # every path to the registration consults a comparison with a neighbouring statement (whichever way the answer
+        # is then used: the comparison may be one test, several, or the call of a helper)
+        consult = [t.id for t in cfg.nodes if t.kind in ("test", "cond") and t.ast is not None and compares_with_neighbour(t.ast)]
+        ok = bool(consult) and nd.id not in cfg.reachable(cfg.entry.id, avoid_nodes=consult, avoid_edges=infeasible)
+        res.add("R07.17", f"find_import_statements|import-alone-on-its-line#{n}", ok, f"{f.unit.rel}:{nd.lineno}",
+                "an import is registered as whole lines only after its lines were compared with the neighbouring statements'" if ok else
+                f"`{ast.unparse(regs[0])[:60]}` registers the import with the whole logical line as its text, and nothing on the way compares the node's lines with the "
+                "neighbouring statements': for `import os, sys; sys.stdout.write(...)` the call belongs to the recorded text and is deleted, duplicated or moved "
+                "with the import when imports are organised", function=f.qualname)
+    res.floor("R07.17", "registrations of module-level import statements", n, 1)
